@@ -155,7 +155,12 @@ def h_add_edges_from_setarg(ctx, H, P):
     elif fmt == 2:
         H.add_edges_from([(mem, i)])
     else:
-        H.add_edges_from({i: mem})
+        j = ctx.fresh("i")
+        ctx.assume(i != j)
+        eb = {}
+        eb[i] = mem
+        eb[j] = mem  # one set object under two ids
+        H.add_edges_from(eb)
     mem.add(ctx.fresh())  # the caller keeps using its own set
     mem.discard(a)
 
@@ -566,6 +571,31 @@ def d_add_edges_from_5(ctx, D, P):
     D.add_edges_from(eb)
 
 
+def d_add_edges_from_setarg(ctx, D, P):
+    """Tail/head given as set objects - one tail set shared by two entries of a dict -
+    which the caller edits afterwards: the network must have stored its own copies."""
+    a, b, c = ctx.fresh(), ctx.fresh(), ctx.fresh()
+    fmt = ctx.choose("fmt", 4)
+    i, j = ctx.fresh("i"), ctx.fresh("i")
+    ctx.assume(i != j)
+    T, Hd, Hd2 = set([a]), set([b]), set([c])
+    _rec(ctx, tail=[a], head=[b], head2=[c], fmt=["add_edge", 1, 2, "5 (shared tail set)"][fmt], idx=i, idx2=j)
+    if fmt == 0:
+        D.add_edge((T, Hd), idx=i)
+    elif fmt == 1:
+        D.add_edges_from([(T, Hd)])
+    elif fmt == 2:
+        D.add_edges_from([((T, Hd), i)])
+    else:
+        eb = {}
+        eb[i] = (T, Hd)
+        eb[j] = (T, Hd2)
+        D.add_edges_from(eb)
+    T.add(ctx.fresh())  # the caller keeps using its own sets
+    T.discard(a)
+    Hd.add(ctx.fresh())
+
+
 DIRS = ["in", "out", "sideways"]
 
 
@@ -677,6 +707,7 @@ OPS_D = {
         d_add_edges_from_3,
         d_add_edges_from_4,
         d_add_edges_from_5,
+        d_add_edges_from_setarg,
         d_add_node_to_edge,
         d_remove_node_from_edge,
         d_remove_edge,
@@ -688,7 +719,7 @@ OPS_D = {
         d_convert_labels,
     ]
 }
-HEAVY_D = {"add_edges_from_iter", "add_edges_from_none", "add_edges_from_1", "add_edges_from_2", "add_edges_from_3", "add_edges_from_4", "add_edges_from_5"}
+HEAVY_D = {"add_edges_from_setarg", "add_edges_from_iter", "add_edges_from_none", "add_edges_from_1", "add_edges_from_2", "add_edges_from_3", "add_edges_from_4", "add_edges_from_5"}
 
 
 # ---------------------------------------------------------------------------
